@@ -70,6 +70,8 @@ def canon_ref(items):
                 n[key] = canon_ref(n[key])
         if n["t"] == "Choice":
             n["alts"] = {k: canon_ref(v) for k, v in n["alts"].items()}
+        if n["t"] == "OneOf":
+            n["alts"] = [canon_ref(v) for v in n["alts"]]
         if n["t"] == "Tagged":
             n = canon_tag(n)
         out.append(n)
@@ -221,6 +223,33 @@ def oid_key(interp, node):
     return "noid"
 
 
+class _Probe:
+    """Scratch report used to try an alternative without recording failures."""
+
+    def __init__(self):
+        self.obs = []
+        self.failed = False
+        self.obligations = self.obs
+
+    def ob(self, rule, key, ok, detail="", sp=None, expected=None, found=None, cfg=None):
+        if not ok:
+            self.failed = True
+        self.obs.append({"rule": rule, "key": "%s|%s" % (rule, key), "ok": bool(ok), "detail": detail, "sp": sp, "expected": expected, "found": found, "cfg": cfg})
+        return bool(ok)
+
+    def fail(self, rule, key, detail, sp=None, **kw):
+        return self.ob(rule, key, False, detail, sp, **kw)
+
+
+def _reslot(slot):
+    c, reps, n = slot
+    for r in reversed(tuple(reps)):
+        n = {"t": "Rep", "over": r, "c": [n]}
+    if c is not True:
+        n = {"t": "Cond", "f": c, "c": [n]}
+    return n
+
+
 class Matcher:
     def __init__(self, interp, rep, rule, fn):
         self.I = interp
@@ -311,6 +340,28 @@ class Matcher:
                     grp.append(fs[i])
                     i += 1
                 self.match_choice(rn, rc, rr, grp, path)
+                continue
+            if rn["t"] == "OneOf":
+                # alternative spellings with identical bytes: accept the first alternative that matches silently
+                if i >= len(fs):
+                    self.err(path + ("oneof",), "expected element is not written", expected=[self.label(a[0]) for a in rn["alts"]], found="end of list")
+                    continue
+                slot = fs[i]
+                i += 1
+                done = False
+                for alt in rn["alts"]:
+                    probe = _Probe()
+                    sub = Matcher(self.I, probe, self.rule, self.fn)
+                    sub.match_list([{"t": "Cond", "f": rc, "c": alt}] if rc is not True else alt, [_reslot(slot)], path)
+                    if not probe.failed:
+                        self.n += sub.n
+                        for o in probe.obs:
+                            self.rep.obligations.append(o)
+                        done = True
+                        break
+                if not done:
+                    alt = rn["alts"][0]
+                    self.match_list([{"t": "Cond", "f": rc, "c": alt}] if rc is not True else alt, [_reslot(slot)], path)
                 continue
             if rn["t"] == "Time":
                 grp = []
